@@ -32,6 +32,10 @@ ASSUMPTIONS = [
 
 CODECS = {
     "utf-8-sig": dict(enc="utf-8-sig", kw={}),
+    # a UTF-8 BOM is recognised whatever else the caller says about encodings
+    "utf-8-sig+encoding=utf-8": dict(enc="utf-8-sig", kw={"encoding": "utf-8"}),
+    "utf-8-sig+no-autodetect": dict(enc="utf-8-sig", kw={"autodetect_encoding": False}),
+    "utf-8-sig+chardet": dict(enc="utf-8-sig", kw={"autodetect_encoding": "chardet"}),
     "utf-8": dict(enc="utf-8", kw={"encoding": "utf-8"}),
     "utf-16": dict(enc="utf-16", kw={"encoding": "utf-16"}),
     "utf-16-le": dict(enc="utf-16-le", kw={"encoding": "utf-16-le"}),
@@ -93,7 +97,7 @@ def oracle(case):
                 elif channel == "Path":
                     las = attempt(lasio.read, pathlib.Path(path), **kw)
                 else:  # open text file object
-                    fobj = open(path, "r", encoding=info["enc"])
+                    fobj = open(path, "r", encoding=info["enc"])  # the caller decodes: BOM handled by utf-8-sig
                     try:
                         las = attempt(lasio.read, fobj, mnemonic_case=mc)
                     finally:
@@ -142,10 +146,11 @@ def specs(draw, alphabet):
 def file_cases(draw):
     family = draw(st.sampled_from(["wide", "wide", "latin-1", "cp1252"]))
     if family == "wide":
-        alphabet, codecs = WIDE, ["utf-8-sig", "utf-8", "utf-16", "utf-16-le", "utf-16-be"]
+        alphabet, codecs = WIDE, ["utf-8-sig", "utf-8", "utf-16", "utf-16-le", "utf-16-be", "utf-8-sig+encoding=utf-8",
+                                  "utf-8-sig+no-autodetect", "utf-8-sig+chardet"]
     else:
         alphabet = REPERTOIRE[family]
-        codecs = [family, "utf-8", "utf-8-sig", "utf-16"]
+        codecs = [family, "utf-8", "utf-8-sig", "utf-16", "utf-8-sig+encoding=utf-8", "utf-8-sig+no-autodetect"]
     spec = draw(specs(alphabet))
     if family == "wide" and draw(st.integers(0, 3)) == 0:
         # characters str.splitlines() breaks on but a file / StringIO does not: they are ordinary characters of the
